@@ -65,6 +65,12 @@ CHECKS = {
     text='Per generated script ALL control-flow paths of the compiled image are covered twice: statically (every reachable abstract state (pc, frame stack) is visited, recursion depth <= 3) and dynamically (all 2^k condition outcomes, k = 6 quick / 10 thorough, run on the real VM). The set of scripts is sampled by Hypothesis.',
     design='DESIGN.md section 3, C05',
     note='Static part trusts the op-code semantics table in verif/checks/c05.py (JUMP/JSR/CTX/RETURN/END/LOOP/END_LOOP) and is independent of values; dynamic part trusts the reference interpreter. Routines defined inside if/repeat bodies are a recorded open finding and are excluded from generation by construction.'),
+ 'C06': dict(
+    technique='fuzzing with the oracle inside the target: Hypothesis token soup / mutations of valid scripts / raw noise / rule breakers by construction / valid control-heavy programs; atheris (libFuzzer) coverage-guided campaigns in the thorough tier; exception bucketing by (type, innermost bardolph frame); token-level ddmin shrinking',
+    category='exploration',
+    text='Totality and validity search: every input must end in accept or a line-numbered rejection within a token-step bound; rejected texts yield no program; accepted texts are executed under an instruction budget and must not hit an internal VM fault; texts built to break one documented rule must be rejected.',
+    design='DESIGN.md section 3, C06',
+    note='Internal VM faults are recognised from the exception raised inside the dispatch (op-code table, missing routine, eval/call-stack underflow, pc outside image); ordinary run-time errors of a script are not counted. atheris campaigns are only approximately reproducible: the saved input is the reproducible unit.'),
 }
 PENDING_REASON = 'check not built yet in this session; planned as described in DESIGN.md (property-based / fuzzing check, same runner)'
 
